@@ -11,7 +11,12 @@ def run(ctx):
         behs = res.behaviours + core.generate(ctx, "Gen_Socks.tla", "Gen_Socks_core.cfg", 0, 0, ctx.seed, bfs=True, timeout=900)
     else:
         behs = core.generate(ctx, "Gen_Socks.tla", "Gen_Socks_all.cfg", 0, 0, ctx.seed, bfs=True, timeout=1800)
-    ctx.say("  scenarios: %d behaviours (client stream x segmentation x truncation x agent answer, each to its end)" % len(behs))
+    slow = core.generate(ctx, "Gen_Socks.tla", "Gen_Socks_slow.cfg", 0, 0, ctx.seed, bfs=True, timeout=900)      # a pause of 6 s in the middle of a connection's life
+    if quick:
+        import random
+        random.Random(ctx.seed).shuffle(slow); slow = slow[:32]
+    behs += slow
+    ctx.say("  scenarios: %d behaviours, %d of them with a pause (client stream x segmentation x truncation x agent answer, each to its end)" % (len(behs), len(slow)))
     hb = core.build_harness(ctx)
     trace, summ = core.run_harness(ctx, hb, "socks", behs, "socks", timeout=900 if quick else 3000)
     for inc in summ["incidents"]:
